@@ -1,8 +1,10 @@
 // Package c19 checks property C19: event feeds deliver every value exactly once
 // to every live subscriber.
 //
-// A generated concurrent PROGRAM (senders, subscribers, a scope closer, a yield
-// plan, GOMAXPROCS) is executed on real goroutines against event.Feed; every
+// A generated concurrent PROGRAM (senders, subscribers, subscription scopes
+// that track some of them, one or several closer goroutines per scope which
+// may send right after their Close returned, a yield plan, GOMAXPROCS) is
+// executed on real goroutines against event.Feed / event.SubscriptionScope; every
 // goroutine logs what it called and what it observed with a global atomic
 // sequence number; the recorded history is judged by judge.go, which knows
 // nothing about the feed's implementation (it does not import package event).
@@ -37,6 +39,16 @@ const (
 	ModeScopeSelf = "scope-self"
 )
 
+// Closer is a goroutine that closes one scope. Several closers may be given
+// for the same scope: they call Close concurrently (two shutdown paths).
+type Closer struct {
+	Scope  int  `json:"scope"`
+	At     int  `json:"at"`     // Close is called once At sends have begun (or a scope-stop subscriber of that scope stopped, or all senders are done)
+	Yields int  `json:"yields"` // runtime.Gosched calls between the trigger and the Close call
+	Probe  bool `json:"probe"`  // Send one value (9000+closer index) right after Close has returned
+	Count  bool `json:"count"`  // call Count() before and after Close (logged, not judged: exercised for the race detector)
+}
+
 func scoped(mode string) bool {
 	return mode == ModeScope || mode == ModeScopeStop || mode == ModeScopeSelf
 }
@@ -58,6 +70,12 @@ type Sub struct {
 	Blocked    bool   `json:"blocked"`    // self: wait until a send is blocked on me
 	Polls      int    `json:"polls"`      // self+blocked: consecutive polls the blocked condition must hold
 	ExtAt      int    `json:"extAt"`      // ext: the other goroutine unsubscribes once ExtAt sends have begun
+	// scoped modes: index of the scope that tracks the subscription
+	Scope int `json:"scope,omitempty"`
+	// scoped modes: the tracked Subscription is a wrapper whose Unsubscribe
+	// yields UnsubYields times before it forwards to the feed subscription (a
+	// scope tracks any Subscription; Unsubscribe of some kinds takes a while)
+	UnsubYields int `json:"unsubYields,omitempty"`
 }
 
 type Program struct {
@@ -65,9 +83,34 @@ type Program struct {
 	Plan    YieldPlan `json:"yieldPlan"`
 	Senders []Sender  `json:"senders"`
 	Subs    []Sub     `json:"subs"`
-	CloseAt int       `json:"closeAt"` // the scope is closed once CloseAt sends have begun (or a scope-stop subscriber stopped)
+	CloseAt int       `json:"closeAt"` // without Closers: scope 0 is closed by one closer once CloseAt sends have begun (or a scope-stop subscriber stopped)
 	Runs    int       `json:"runs"`
+	Scopes  int       `json:"scopes,omitempty"`  // number of SubscriptionScopes (0 = 1)
+	Closers []Closer  `json:"closers,omitempty"` // every scope that tracks a subscriber has at least one
 }
+
+// NScopes is the number of scopes of the program.
+func (p *Program) NScopes() int {
+	if p.Scopes < 1 {
+		return 1
+	}
+	return p.Scopes
+}
+
+// AllClosers returns the closer goroutines of the program (older case files
+// give one closer of scope 0 through CloseAt).
+func (p *Program) AllClosers() []Closer {
+	if len(p.Closers) > 0 {
+		return p.Closers
+	}
+	if p.HasScope() {
+		return []Closer{{Scope: 0, At: p.CloseAt}}
+	}
+	return nil
+}
+
+// ProbeBase + closer index is the value a closer sends after its Close returned.
+const ProbeBase = 9000
 
 func (p *Program) TotalSends() int {
 	n := 0
@@ -112,6 +155,24 @@ func (p *Program) Validate() error {
 			return fmt.Errorf("bad subscriber %+v", s)
 		}
 	}
+	if p.Scopes < 0 || p.Scopes > 8 || len(p.Closers) > 16 {
+		return fmt.Errorf("need at most 8 scopes and 16 closers")
+	}
+	closed := map[int]bool{}
+	for _, c := range p.AllClosers() {
+		if c.Scope < 0 || c.Scope >= p.NScopes() || c.At < 0 || c.Yields < 0 {
+			return fmt.Errorf("bad closer %+v", c)
+		}
+		closed[c.Scope] = true
+	}
+	for _, s := range p.Subs {
+		if s.Scope < 0 || s.Scope >= p.NScopes() || s.UnsubYields < 0 {
+			return fmt.Errorf("bad subscriber %+v", s)
+		}
+		if scoped(s.Mode) && !closed[s.Scope] {
+			return fmt.Errorf("scope %d tracks a subscriber but has no closer", s.Scope)
+		}
+	}
 	if p.Procs < 1 || p.Procs > 64 {
 		return fmt.Errorf("bad gomaxprocs %d", p.Procs)
 	}
@@ -123,19 +184,20 @@ const (
 	KSendBegin = "send-begin" // Val = value; logged before Feed.Send is called
 	KSendEnd   = "send-end"   // Val = value, N = nsent; logged after Feed.Send returned
 	KSubCall   = "sub-call"   // logged before Feed.Subscribe
-	KSubRet    = "sub-ret"    // logged after Subscribe (and Track) returned; N = 1 if tracked by the scope
+	KSubRet    = "sub-ret"    // logged after Subscribe (and Track) returned; N = 1 if tracked by scope Val, 2 if Track returned nil (scope Val was closed)
 	KUnsubCall = "unsub-call" // logged before Unsubscribe; N = len(chan), Val = 1 if a send was in flight and the buffer full
 	KUnsubRet  = "unsub-ret"  // logged after Unsubscribe returned
 	KUnsubSeen = "unsub-seen" // the receiver observed Err() closed (Unsubscribe by another goroutine has removed the channel)
 	KSnap      = "snap"       // N = len(chan) read by the only receiver after it knew Unsubscribe had returned
 	KRecv      = "recv"       // Val = value received from the subscriber's channel
-	KCloseCall = "close-call" // before SubscriptionScope.Close
+	KCloseCall = "close-call" // before SubscriptionScope.Close of scope Val
 	KCloseRet  = "close-ret"  // after it returned
+	KCount     = "count"      // N = SubscriptionScope.Count() of scope Val
 )
 
 type Event struct {
 	Seq  int64  `json:"q"`
-	G    string `json:"g"` // S<i> sender, R<k> receiver, X<k> external unsubscriber, C closer
+	G    string `json:"g"` // S<i> sender, R<k> receiver, X<k> external unsubscriber, C<c> closer
 	Kind string `json:"k"`
 	Sub  int    `json:"s"` // subscriber index or -1
 	Val  int    `json:"v"`
@@ -151,13 +213,15 @@ func (e Event) String() string {
 	case KRecv:
 		return fmt.Sprintf("%5d %-3s recv       sub=%d v=%d", e.Seq, e.G, e.Sub, e.Val)
 	case KSubRet:
-		return fmt.Sprintf("%5d %-3s sub-ret    sub=%d tracked=%d", e.Seq, e.G, e.Sub, e.N)
+		return fmt.Sprintf("%5d %-3s sub-ret    sub=%d tracked=%d scope=%d", e.Seq, e.G, e.Sub, e.N, e.Val)
 	case KUnsubCall:
 		return fmt.Sprintf("%5d %-3s unsub-call sub=%d len=%d sendBlockedOnMe=%d", e.Seq, e.G, e.Sub, e.N, e.Val)
 	case KSnap:
 		return fmt.Sprintf("%5d %-3s snap       sub=%d len=%d", e.Seq, e.G, e.Sub, e.N)
 	case KCloseCall, KCloseRet:
-		return fmt.Sprintf("%5d %-3s %s", e.Seq, e.G, e.Kind)
+		return fmt.Sprintf("%5d %-3s %s scope=%d", e.Seq, e.G, e.Kind, e.Val)
+	case KCount:
+		return fmt.Sprintf("%5d %-3s count      scope=%d n=%d", e.Seq, e.G, e.Val, e.N)
 	}
 	return fmt.Sprintf("%5d %-3s %-10s sub=%d", e.Seq, e.G, e.Kind, e.Sub)
 }
